@@ -9,6 +9,7 @@ from sa.flow import show, sig, subterms
 from sa.model import AnalysisError, norm, parent, walk_no_nested
 
 from .common import (
+    atomic_deps,
     include_rules,
     EXIT_CODES_SPEC,
     alts,
@@ -655,7 +656,61 @@ def run(report, p):
                         r10.check(False, f, e, f"`{norm(e)[:50]}` is tested for truth, and its class {base.split('.')[-1]} defines {special[base]}: the test no longer means 'there is one' but 'it is not empty'", construct=f"truth test of {base.split('.')[-1]} instance: {norm(e)[:40]}")
     r10.check(True, None, None, "")
 
+    # ------------------------------------------------------------------ R3.11
+    r11 = report.rule(
+        "R3.11",
+        "logging cannot change a verdict: the logger applies printf formatting (`msg % args`) only when arguments were given, and a call that gives arguments passes a constant "
+        "format string whose placeholders match them - a message that already contains file names (a `%` in a name) is never interpreted as a format string, "
+        "which would raise in the middle of the command and replace its exit code",
+        20,
+    )
+    lg = p.modules.get("ascmhl.logger")
+    if lg is None:
+        raise AnalysisError("ascmhl.logger not found")
+    lfuncs = [f for f in p.funcs.values() if f.module is lg]
+    n_fmt = 0
+    for f in lfuncs:
+        gl = cfg_of(f)
+        varargs = f.node.args.vararg.arg if f.node.args.vararg else None
+        for n in walk_no_nested(f.node):
+            is_fmt = (isinstance(n, ast.BinOp) and isinstance(n.op, ast.Mod)) or (isinstance(n, ast.AugAssign) and isinstance(n.op, ast.Mod))
+            if not is_fmt:
+                continue
+            n_fmt += 1
+            r11.instance(f, n, f"logger.{f.name}: {norm(n)[:50]}")
+            right = n.right if isinstance(n, ast.BinOp) else n.value
+            names = {x.id for x in ast.walk(right) if isinstance(x, ast.Name)}
+            atoms = []
+            for t, l in gl.necessary_branches(gl.node_for(n)):
+                atoms += atomic_deps(t.ast, l)
+            guarded = any((nm, "T") in atoms or (f"len({nm}) > 0", "T") in atoms or (f"len({nm}) == 0", "F") in atoms for nm in names)
+            # a helper that formats unconditionally is fine only if every caller calls it under such a test: not modelled -> must be guarded here
+            r11.check(guarded, f, n, f"logger.{f.name} applies `{norm(n)[:40]}` even when no arguments were given: every message that contains a `%` (a file or folder name) raises `TypeError`/`ValueError` inside the logger, the command dies with exit 1 instead of its own verdict", construct=f"logger.{f.name}: unconditional % formatting")
+    if n_fmt == 0:
+        r11.note("the logger applies no printf formatting at all")
+    lq = {f.qual for f in lfuncs}
+    import re as _re
+
+    for fq, f in sorted(p.funcs.items()):
+        if f.module.name in _unsh or f.module is lg:
+            continue
+        for call, tg in p.calls[fq]:
+            if not any(t in lq for t in tg):
+                continue
+            r11.instance(f, call, norm(call)[:60])
+            extra = call.args[1:]
+            if not extra and not any(isinstance(a, ast.Starred) for a in call.args):
+                continue
+            fmt = call.args[0] if call.args else None
+            if isinstance(fmt, ast.Constant) and isinstance(fmt.value, str):
+                nph = len(_re.findall(r"%(?!%)", fmt.value))
+                r11.check(nph == len(extra), f, call, f"the format string has {nph} placeholder(s) for {len(extra)} argument(s): formatting raises at run time", construct="logger call: placeholder count")
+            else:
+                r11.check(False, f, call, f"the logger is given printf arguments together with a format string that is built at run time (`{norm(fmt)[:60]}`): a `%` in an interpolated value (a file name) is taken as a placeholder and the formatting raises - the command dies with exit 1 instead of reporting its own verdict", construct="logger call: run-time text used as printf format")
+    r11.check(True, None, None, "")
+
     # ---- rules shared with other properties (same mechanism, same rule, reported under every property it can break)
+    include_rules(report, p, 'c05', ['R5.7'], 'what counts as a nested history decides which folders are verified against which history and which tree makes the loader refuse: exactly the directories that contain an ascmhl FOLDER (as listed by the walk)')
     include_rules(report, p, 'c08', ['R8.1', 'R8.2'], 'verify/diff look recorded entries up through the same routing')
     include_rules(report, p, 'c01', ['R1.1', 'R1.2'], 'an altered file is only detected if every byte is hashed with the recorded algorithm')
     include_rules(report, p, 'c04', ['R4.1'], "create's verdict per file is the session's action decision")
